@@ -1316,3 +1316,58 @@ def unit_stream(mode):
     if res:
         u.samples.append({"unit": label, "paths": len(res)})
     return u
+
+
+def unit_is_parameter_encryption(n):
+    """the real is_parameter_encryption on an area of n sessions with symbolic attribute words and handles:
+    True iff some session has the decrypt (command) / encrypt (response) bit, whatever the handles are; None area of a command -> False"""
+    from tpmstream.spec.commands import Command
+    from tpmstream.spec.structures.attribute_structures import TPMA_SESSION
+    from tpmstream.spec.structures.structures import TPMS_AUTH_COMMAND
+    from tpmstream.spec.structures.interface_types import TPMI_SH_AUTH_SESSION
+
+    u = UnitResult(f"WALK/is_parameter_encryption/{n}-sessions")
+    u.functions = ["tpmstream.io.binary.marshal:is_parameter_encryption"]
+    m = M()
+    for for_response in (False, True):
+        for via_command in (False, True):
+            def run(ctx, for_response=for_response, via_command=via_command):
+                sessions = []
+                words = []
+                for i in range(n):
+                    w = ctx.fresh_int(f"attrs{i}", 0, 255)
+                    h = ctx.fresh_int(f"handle{i}", 0, 2**32 - 1)
+                    words.append(w)
+                    I0 = Interp(ctx)
+                    attrs = run_sync(I0.call(TPMA_SESSION, (S.SInt(w),), {}))
+                    sessions.append(TPMS_AUTH_COMMAND(sessionHandle=TypedStub.make(TPMI_SH_AUTH_SESSION, S.SInt(h)), nonce=None, sessionAttributes=attrs, hmac=None))
+                I = Interp(ctx)
+                try:
+                    if via_command:
+                        cmd = Command(authorizationArea=sessions)
+                        r = run_sync(I.call(m.is_parameter_encryption, (), {"command": cmd, "for_response": for_response}))
+                    else:
+                        r = run_sync(I.call(m.is_parameter_encryption, (), {"authorizationArea": sessions, "for_response": for_response}))
+                except PyExc as e:
+                    ctx.record("no-internal-error", False, "safety", e.site or "", repr(e.exc)[:200])
+                    return ("raise", e)
+                bit = 6 if for_response else 5
+                exp = z3.Or([S.bit_of(w, bit) == 1 for w in words]) if words else z3.BoolVal(False)
+                if isinstance(r, S.SBool):
+                    ctx.oblige("true-iff-some-session-has-the-bit", r.t == exp, site="marshal.py:is_parameter_encryption")
+                elif isinstance(r, bool):
+                    ctx.oblige("true-iff-some-session-has-the-bit", exp if r else z3.Not(exp), site="marshal.py:is_parameter_encryption", detail=f"returned {r}")
+                else:
+                    ctx.record("true-iff-some-session-has-the-bit", False, site="marshal.py:is_parameter_encryption", detail=f"returned {r!r}")
+                return ("return", r)
+
+            res = explore(run, max_paths=400)
+            u.add_paths(res, f"WALK/is_parameter_encryption/{n}-sessions/{'response' if for_response else 'command'}/{'via-command' if via_command else 'area'}")
+    if n == 0:
+        def run0(ctx):
+            I = Interp(ctx, force=[m.is_parameter_encryption])
+            r = run_sync(I.call(m.is_parameter_encryption, (), {"command": Command(authorizationArea=None), "for_response": True}))
+            ctx.record("command-without-sessions-requests-nothing", r is False, site="marshal.py:is_parameter_encryption", detail=repr(r))
+            return ("return", r)
+        u.add_paths(explore(run0), "WALK/is_parameter_encryption/no-area")
+    return u
